@@ -212,6 +212,12 @@ def corpus():
         [split(D(1), D(2), True), buy(af="Spouse")],                 # another affiliate is named
         [split(D(1), D(2), False)], [split(D(1), D(2), True)], [split(D(10, 1), D(20, 1), False)],
         [split(D(15, 1), D(1), False)], [split(D(2), D(1), False, af="__global__")],
+        # the affiliate column (fix e44bc72): not needed by a split for all affiliates alone or next to default
+        # rows; needed next to a split addressed to the default affiliate, and for __global__ on a non-split row
+        [split(D(2), D(1), False, af="__global__"), buy()], [split(D(2), D(1), False, af="__global__"), buy(af="Default")],
+        [split(D(2), D(1), False, af="__global__"), split(D(3), D(1), False, af="")],
+        [split(D(2), D(1), False, af="__global__"), buy(af="Spouse")], [buy(af="__global__")],
+        [buy(af="__global__"), split(D(2), D(1), False)],
         [buy(aps=D(cc.MAX_MANT))], [buy(aps=D(cc.MAX_MANT, 28))], [buy(sh=D(cc.MAX_MANT, 1), aps=D(10 ** 28, 27))],
         [buy(aps=D(7922816251426433759354395033)), buy(aps=D(7922816251426433759354395034))],
         [buy(aps=D(0, 0)), buy(aps=D(0, 5), com=D(0, 0))],
@@ -245,7 +251,7 @@ def default_split_goes_global(txs):
 
 def unstable_classes(txs):
     """executable classes on which the second-generation bytes are known to differ: none since the fixes
-    cd7192e (memo written trimmed) and 96161d9 (a split for all affiliates does not need the affiliate
+    84ca472 (memo written trimmed) and e44bc72 (a split for all affiliates does not need the affiliate
     column); the two former classes are still counted, to show that they are exercised"""
     return []
 
